@@ -151,7 +151,7 @@ func init() {
 		},
 		Budget: func(tier string) time.Duration {
 			if tier == "quick" {
-				return 75 * time.Second
+				return 150 * time.Second
 			}
 			return 14 * time.Minute
 		},
